@@ -70,6 +70,13 @@ def run(ctx: Ctx):
     normalised_sites(ctx)
     act_evaluate_agree(ctx)
     entropy_as_recorded(ctx)
+    # the recorded log-probabilities are those of the distribution the caller configured: the dispatchers / strategy
+    # constructors hand temperature, clipping, top-k and top-p on unchanged (shared with C10.f)
+    from . import C10 as _C10
+    _n0 = len(ctx.obligations)
+    _C10.dispatch_rules(ctx)
+    for _o in ctx.obligations[_n0:]:
+        _o.rule = "C11.i"
     ds = ctx.repo.get_class(DEC, "DecodingStrategy")
     bs = ctx.repo.get_class(DEC, "BeamSearch")
     it = pairing(ctx, ds, "step", ("actions", "logprobs"), "DecodingStrategy.step")
